@@ -5,6 +5,7 @@ CONSTANT MaxNums = {0, 1, 2, 100}
 CONSTANT Olds = {FALSE, TRUE}
 CONSTANT Kinds <- KAll
 CONSTANT Ranges <- RSim
+CONSTANT DocEvs <- DSim
 CONSTANT MaxDup = 2
 CONSTANT MaxRangeArr = 3
 CONSTANT Policy = "exact"
